@@ -166,14 +166,19 @@ def replay(case, ctx):
 
 
 def eps_near_line(m, ch):
-    """Input class of the two 'extend' branches: some gap has a measure- or beat-remainder in (0, 0.001]."""
+    """Input class of the two 'extend' branches: some gap between consecutive changes has a remainder in (0, 0.001] -
+    'measure-line': of a measure; 'beat-line': of a beat, at least one whole beat off the measure line (the library's second
+    'extend' branch, which shortens the measure instead of inserting a very fast bpm). False otherwise."""
+    kind = False
     for (b0, p0), (b1, p1) in zip(ch[:-1], ch[1:]):
         gap = p1 - p0  # beats
         rb = gap % 1
         rm = (gap / m) % 1
-        if 0 < rb <= F(1, 1000) or 0 < rm <= F(1, 1000):
-            return True
-    return False
+        if 0 < rm <= F(1, 1000):
+            kind = kind or "measure-line"
+        elif 0 < rb <= F(1, 1000) and (gap // 1) % m != 0:
+            return "beat-line"
+    return kind
 
 
 def integrate(init, res):
